@@ -11,7 +11,7 @@ use num_traits::ToPrimitive;
 use parser::parse_definition;
 use program_structure::cfg::{BasicBlock, Cfg, IntoCfg};
 use program_structure::constants::Curve;
-use program_structure::ir::{AccessType, Expression, Statement};
+use program_structure::ir::{AccessType, AssignOp, Expression, ExpressionInfixOpcode, Statement};
 use program_structure::report::ReportCollection;
 use verif_harness::{each_line, guarded, silence_panics};
 
@@ -87,9 +87,12 @@ fn item_of(stmt: &Statement) -> Item {
             Item::Branch(the_number(cond), *true_index, *false_index)
         }
         Statement::Return { value, .. } => Item::Leaf(the_number(value)),
-        Statement::Substitution { rhe, .. } => {
+        Statement::Substitution { var, rhe, .. } => {
             if matches!(rhe, Expression::Phi { .. }) {
                 Item::Phi
+            } else if let Some(id) = target_id(var.name()) {
+                // C13 rendering: the statement is named by its target `c<id>` / `q<id>`
+                Item::Leaf(id)
             } else {
                 Item::Leaf(the_number(rhe))
             }
@@ -97,6 +100,122 @@ fn item_of(stmt: &Statement) -> Item {
         Statement::ConstraintEquality { rhe, .. } => Item::Leaf(the_number(rhe)),
         Statement::LogCall { .. } => Item::Leaf("?".to_string()),
         Statement::Assert { arg, .. } => Item::Leaf(the_number(arg)),
+    }
+}
+
+/// `c<digits>` / `q<digits>` (digits not "0"): the id of a leaf of the C13
+/// rendering (lib/lifteng.py, Render.rich_leaf); no other rendering uses such names.
+fn target_id(name: &str) -> Option<String> {
+    let mut chars = name.chars();
+    match chars.next() {
+        Some('c') | Some('q') => {}
+        _ => return None,
+    }
+    let digits: String = chars.collect();
+    if digits.is_empty() || digits == "0" || !digits.chars().all(|c| c.is_ascii_digit()) {
+        return None;
+    }
+    Some(digits)
+}
+
+// ---- canonical form of a lifted assignment (C13, mode `forms`) ----
+
+fn op_name(op: &ExpressionInfixOpcode) -> &'static str {
+    use ExpressionInfixOpcode::*;
+    match op {
+        Mul => "Mul",
+        Div => "Div",
+        Add => "Add",
+        Sub => "Sub",
+        Pow => "Pow",
+        IntDiv => "IntDiv",
+        Mod => "Mod",
+        ShiftL => "ShiftL",
+        ShiftR => "ShiftR",
+        LesserEq => "LesserEq",
+        GreaterEq => "GreaterEq",
+        Lesser => "Lesser",
+        Greater => "Greater",
+        Eq => "Eq",
+        NotEq => "NotEq",
+        BoolOr => "BoolOr",
+        BoolAnd => "BoolAnd",
+        BitOr => "BitOr",
+        BitAnd => "BitAnd",
+        BitXor => "BitXor",
+    }
+}
+
+fn show_access(name: &str, access: &[AccessType]) -> String {
+    let mut out = format!("(V {name}");
+    for a in access {
+        out.push(' ');
+        match a {
+            AccessType::ArrayAccess(e) => out.push_str(&show_expr(e)),
+            AccessType::ComponentAccess(f) => out.push_str(&format!("(. {f})")),
+        }
+    }
+    out.push(')');
+    out
+}
+
+/// prefix form: (N 7), (V x), (V q7 (V x) (N 2)) for q7[x][2], (Sub l r)
+fn show_expr(e: &Expression) -> String {
+    use Expression::*;
+    match e {
+        Number(_, v) => format!("(N {v})"),
+        Variable { name, .. } => show_access(name.name(), &[]),
+        Access { var, access, .. } => show_access(var.name(), access),
+        InfixOp { lhe, infix_op, rhe, .. } => {
+            format!("({} {} {})", op_name(infix_op), show_expr(lhe), show_expr(rhe))
+        }
+        PrefixOp { .. } => "(?prefix)".to_string(),
+        SwitchOp { .. } => "(?switch)".to_string(),
+        Call { .. } => "(?call)".to_string(),
+        InlineArray { .. } => "(?array)".to_string(),
+        Update { .. } => "(?update)".to_string(),
+        Phi { .. } => "(?phi)".to_string(),
+    }
+}
+
+/// `(= target rhs)`: target is `(V name index..)`; an element assignment is
+/// the IR statement `name = update(name, index.., rhs)`
+fn show_assignment(var: &str, op: &AssignOp, rhe: &Expression) -> String {
+    let op = match op {
+        AssignOp::AssignLocalOrComponent => "=",
+        AssignOp::AssignSignal => "<--",
+        AssignOp::AssignConstraintSignal => "<==",
+    };
+    match rhe {
+        Expression::Update { var: v2, access, rhe: inner, .. } => {
+            if v2.name() == var {
+                format!("({} {} {})", op, show_access(var, access), show_expr(inner))
+            } else {
+                format!("({} ?{}/{} {})", op, var, show_access(v2.name(), access), show_expr(inner))
+            }
+        }
+        _ => format!("({} {} {})", op, show_access(var, &[]), show_expr(rhe)),
+    }
+}
+
+fn forms_line(src: &str) -> String {
+    match lift(src) {
+        Lifted::NoParse => "noparse".to_string(),
+        Lifted::Error => "cfg error".to_string(),
+        Lifted::Panic => "cfg panic".to_string(),
+        Lifted::Ok(cfg) => {
+            let mut out = Vec::new();
+            for b in cfg.iter() {
+                for stmt in b.iter() {
+                    if let Statement::Substitution { var, op, rhe, .. } = stmt {
+                        if let Some(id) = target_id(var.name()) {
+                            out.push(format!("{}={}", id, show_assignment(var.name(), op, rhe)));
+                        }
+                    }
+                }
+            }
+            format!("forms {}", out.join("|"))
+        }
     }
 }
 
@@ -316,6 +435,7 @@ fn main() {
             "cfg-nossa" => cfg_line(&src, false),
             "walk" => walk_line(&src, n, false),
             "walk-ssa" => walk_line(&src, n, true),
+            "forms" => forms_line(&src),
             _ => "bad-mode".to_string(),
         }
     });
